@@ -550,6 +550,112 @@ def run(chk):
                 chk.violation(r_fr, key, "%s applies net-to-gross to component [%s] of %s: NTG scales the vertical extent, component [2] of a grid-ordered triple" % (f["q"], show(idx), bname), f["file"], n["l"])
             elif bname in permuted:
                 chk.violation(r_fr, key, "%s applies net-to-gross to %s[2] after %s has been permuted into the completion's order: for X/Y completions this scales the extent along the well bore instead of the vertical one (Kh, r0 and CF of a defaulted COMPDAT then deviate from the Peaceman values)" % (f["q"], bname, bname), f["file"], n["l"])
+    # ---- C06.peaceman: CF x (ln(r0/rw) + S) = 2 pi Kh on every path through loadCOMPDAT
+    r_pm = chk.rule("C06.peaceman", "loadCOMPDAT: on every path from the explicit/defaulted decision to the label where the connection is finished, the stored transmissibility factor, permeability-thickness and Peaceman denominator satisfy CF x denominator = angle x Kh - decided as an identity between monomials over (angle, the deck's CF and Kh, the computed denominator, Ke, the effective extent): whichever of CF / Kh is defaulted is derived from the other through the denominator, and the stored denominator is the one that links them; the denominator is ln(r0/rw) + skin", floor=5)
+    lcb = fx.fn1("Opm::WellConnections::loadCOMPDAT")
+    floop = [n for n in stmt_list(lcb["body"]) if n["k"] == "For"]
+    if len(floop) != 1:
+        raise core.AnalysisBroken("loadCOMPDAT: layer loop not found")
+    body_ = list(floop[0]["body"]["c"]) if floop[0]["body"].get("k") == "Block" else [floop[0]["body"]]
+    lab = [i for i, s_ in enumerate(body_) if "Label" in s_["k"]]
+    happy = [i for i, s_ in enumerate(body_) if s_["k"] == "If" and any(x["k"] == "Goto" for x in walk(s_))]
+    if len(lab) != 1 or len(happy) != 1 or happy[0] > lab[0]:
+        raise core.AnalysisBroken("loadCOMPDAT: the happy-path test / CF_done label were not recognised")
+
+    def mono_mul(a, b, sg=1):
+        if a is None or b is None:
+            return None
+        r = dict(a)
+        for k_, v_ in b.items():
+            r[k_] = r.get(k_, 0) + sg * v_
+            if r[k_] == 0:
+                del r[k_]
+        return r
+
+    def mono(e, env, loc):
+        e = strip(e)
+        k_ = e.get("k")
+        if k_ == "Bin" and e.get("op") in ("*", "/") and not e.get("asg"):
+            return mono_mul(mono(e["c"][0], env, loc), mono(e["c"][1], env, loc), 1 if e["op"] == "*" else -1)
+        if k_ == "Mem" and strip(e.get("b") or {}).get("k") == "Ref" and (strip(e["b"]).get("t") or "").endswith("CTFProperties"):
+            return dict(env.get(e["n"], {e["n"] + "0": 1}))
+        if k_ == "Ref" and e.get("n") in loc:
+            return dict(loc[e["n"]])
+        if k_ == "Ref" and e.get("d") == "Var":
+            return {e["n"]: 1}
+        if k_ in ("Idx", "OpCall") and (e.get("op") in (None, "[]")):
+            return {show(e).replace(" ", ""): 1}
+        return None
+    results = []
+
+    def run_paths(stmts, env, loc):
+        """all (env, ended_by_goto) at the end of stmts"""
+        states = [(env, loc, False)]
+        for st in stmts:
+            nxt = []
+            for env_, loc_, done in states:
+                if done:
+                    nxt.append((env_, loc_, True))
+                    continue
+                if st["k"] == "Goto":
+                    nxt.append((env_, loc_, True))
+                elif st["k"] == "Bin" and st.get("asg") and st.get("op") == "=" and strip(st["c"][0]).get("k") == "Mem" and strip(st["c"][0])["n"] in ("CF", "Kh", "peaceman_denom", "Ke"):
+                    e2 = dict(env_)
+                    e2[strip(st["c"][0])["n"]] = mono(st["c"][1], env_, loc_)
+                    nxt.append((e2, loc_, False))
+                elif st["k"] == "If":
+                    l2 = dict(loc_)
+                    ini = st.get("init")
+                    if isinstance(ini, dict):
+                        for d_ in walk(ini):
+                            if d_["k"] == "Decl":
+                                for v_ in d_["vars"]:
+                                    if isinstance(v_.get("init"), dict) and any(x["k"] == "Call" and (x.get("fn") or "").endswith("peacemanDenominator") for x in walk(v_["init"])):
+                                        l2[v_["n"]] = {"D": 1}
+                    for br_ in (st["then"], st.get("else")):
+                        if br_ is None:
+                            nxt.append((env_, l2, False))
+                        else:
+                            nxt += run_paths(stmt_list(br_), dict(env_), l2)
+                elif st["k"] == "Block":
+                    nxt += run_paths(stmt_list(st), dict(env_), loc_)
+                else:
+                    nxt.append((env_, loc_, False))
+            states = nxt
+        return states
+    finals = run_paths(body_[happy[0]:lab[0]], {}, {})
+    seen_p = 0
+    for env_, loc_, done in finals:
+        if "peaceman_denom" not in env_:
+            continue
+        seen_p += 1
+        cf = env_.get("CF", {"CF0": 1})
+        kh = env_.get("Kh", {"Kh0": 1})
+        dn = env_["peaceman_denom"]
+        key = "path%d" % seen_p
+        lhs = mono_mul(cf, dn)
+        rhs = mono_mul({"angle": 1}, kh)
+        desc = dict(CF=cf, Kh=kh, denominator=dn)
+        chk.instance(r_pm, key, sample=dict(path=seen_p, values={k_: " ".join("%s^%d" % kv for kv in sorted(v_.items())) if v_ else "?" for k_, v_ in desc.items()}, identity=lhs == rhs))
+        if None in (cf, kh, dn):
+            raise core.AnalysisBroken("loadCOMPDAT: a CF / Kh / denominator assignment is not a product or quotient of the modelled quantities (path %d)" % seen_p)
+        if lhs != rhs:
+            chk.violation(r_pm, key, "loadCOMPDAT: on path %d the connection ends with CF = %s, Kh = %s, denominator = %s, for which CF x denominator = %s but angle x Kh = %s: the stored values no longer satisfy CF (ln(r0/rw) + S) = 2 pi Kh" % (seen_p, cf, kh, dn, lhs, rhs), lcb["file"], body_[happy[0]]["l"])
+    if seen_p < 4:
+        raise core.AnalysisBroken("loadCOMPDAT: only %d paths assign the Peaceman denominator (expected the happy path and the three defaulting cases)" % seen_p)
+    pd = [f for f in fx.fns if f["n"] == "peacemanDenominator" and f.get("body") and len(f.get("params") or []) == 3]
+    if len(pd) != 1:
+        raise core.AnalysisBroken("peacemanDenominator(r0, rw, skin) not found")
+    rp = [r_ for r_ in walk(pd[0]["body"]) if r_["k"] == "Return" and r_.get("e") is not None]
+    a_, b_, c_ = (p_["n"] for p_ in pd[0]["params"])
+    txt = show(strip(rp[0]["e"])).replace(" ", "") if rp else ""
+    rwm = "std::min(%s,%s)" % (b_, a_)          # the wellbore radius, capped by r0 so that the logarithm stays non-negative
+    rwm2 = "std::min(%s,%s)" % (a_, b_)
+    okd = txt.replace("std::log", "log") in ["(log((%s/%s))+%s)" % (a_, d_, c_) for d_ in (b_, rwm, rwm2)] + ["(%s+log((%s/%s)))" % (c_, a_, d_) for d_ in (b_, rwm, rwm2)]
+    chk.instance(r_pm, "denominator", sample=dict(returns=txt))
+    if not okd:
+        chk.violation(r_pm, "denominator", "peacemanDenominator(r0, rw, skin) returns %s; the Peaceman denominator is ln(r0 / rw) + skin (rw possibly capped by r0)" % txt, pd[0]["file"], pd[0]["l"])
+
     # ---- C06.zero: the record's one-based cell numbers
     r_zr = chk.rule("C06.zero", "COMPDAT: I, J, K1, K2 are one-based in the record and zero-based in the connection: each is the item's integer minus 1 (I and J fall back to the well head when defaulted or 0), and the connections are created for every layer k = K1 .. K2 inclusive", floor=5)
     lc = fx.fn1("Opm::WellConnections::loadCOMPDAT")
